@@ -317,6 +317,13 @@ def read_subint_pol(self, isub, poln_select=1, scloffs=True, weights=True):
         data = sdata[:, 0, :].squeeze()
     return data
 ''',
+    "quantize": '''
+def quantize(self, arr_norm):
+    arr = (arr_norm * self.digi_scale) + self.digi_mean + 0.5
+    arr = arr.astype(np.int32)
+    np.clip(arr, self.digi_min, self.digi_max, out=arr)
+    return arr.astype(self.dtype, copy=False)
+''',
     "compute_online_moments_basic": '''
 def compute_online_moments_basic(array, moments, startflag=0):
     nchans = moments.shape[0]
